@@ -107,3 +107,16 @@ Theorem C12_remote_view_raw_is_local lookup file aid :
   end.
 Proof. exact (remote_view_raw_is_local lookup file aid). Qed.
 Print Assumptions C12_remote_view_raw_is_local.
+
+(** ** file and item globbing through a server: the matched names arrive unchanged as long as no
+    name contains a line break or ends in a carriage return ... *)
+Theorem C12_glob_names_arrive_unchanged names : Forall line_safe names -> client_names names = names.
+Proof. exact (names_roundtrip names). Qed.
+Print Assumptions C12_glob_names_arrive_unchanged.
+
+(** ... and without that restriction the statement is FALSE of the code (known finding K1: the witness,
+    a file named "b<LF>c", is replayed against the real client and server by the [clinewline] operation
+    of every run) *)
+Theorem C12_glob_names_with_line_break_refuted : exists names, client_names names <> names.
+Proof. exact names_with_line_break_refuted. Qed.
+Print Assumptions C12_glob_names_with_line_break_refuted.
